@@ -41,6 +41,8 @@ pub const CONTEXTS: &[Ctx1] = &[
     cx!("(let* ((v K) (w v)) •)", &[("v", Kind::Int), ("w", Kind::Int)]),
     cx!("(letrec ((v (lambda () K))) •)", &[("v", Kind::Proc)]),
     cx!("(let lp ((i 0)) (if (< i 1) (lp (+ i 1)) •))", &[("lp", Kind::Proc), ("i", Kind::Int)]),
+    // the inits of a named let are outside the scope of its tag: (gfix 0 0) here is the global procedure
+    cx!("(let gfix ((j (car (gfix 0 0)))) (if (< j 1) (gfix (+ j 1)) •))", &[("j", Kind::Int)]),
     cx!("(begin (p K) •)"),
     cx!("(begin • (p K))"),
     cx!("(if #t • K)"),
@@ -361,7 +363,12 @@ pub const SESSION_FORMS: &[&str] = &[
     "g",
     "h",
     "((lambda () (h)))",
+    // a caller of a builtin compiled before the builtin's name is redefined must see the redefinition
+    "(define (u) (abs -5))",
+    "(define (abs x) (list 'mine x))",
+    "(u)",
 ];
+const REDEFINES_BUILTIN: usize = 15;
 
 fn rename(form: &str, suffix: u64) -> String {
     // g h f are single-letter identifiers delimited by non-identifier characters
@@ -370,7 +377,7 @@ fn rename(form: &str, suffix: u64) -> String {
     for (j, c) in chars.iter().enumerate() {
         let ident = |c: char| c.is_alphanumeric() || "!?*-+<>=/".contains(c);
         let alone = (j == 0 || !ident(chars[j - 1])) && (j + 1 >= chars.len() || !ident(chars[j + 1]));
-        if alone && (*c == 'g' || *c == 'h' || *c == 'f') {
+        if alone && (*c == 'g' || *c == 'h' || *c == 'f' || *c == 'u') {
             out.push_str(&format!("{}{}", c, suffix));
         } else {
             out.push(*c);
@@ -389,19 +396,23 @@ fn session_of(mut i: u64, len: u32) -> Vec<usize> {
 }
 
 fn run_session_case(st: &mut St, acc: &mut Acc, idxs: &[usize], suffix: Option<u64>) {
-    let texts: Vec<String> = idxs
+    let mut texts: Vec<String> = idxs
         .iter()
         .map(|k| match suffix {
             Some(s) => rename(SESSION_FORMS[*k], s),
             None => SESSION_FORMS[*k].to_string(),
         })
         .collect();
+    if suffix.is_some() && idxs.contains(&REDEFINES_BUILTIN) {
+        // the builtin's name cannot be renamed apart: put the builtin back for the next session of the shared VM
+        texts.push("(define abs orig-abs)".to_string());
+    }
     let forms: Vec<Cell> = texts.iter().map(|t| parse_forms(t).unwrap().remove(0)).collect();
     beat(&texts.join(" "));
     acc.evals += 1;
     let run = if suffix.is_some() {
         if st.pair.as_ref().map(|p| p.used >= 512).unwrap_or(true) {
-            st.pair = Some(fresh_pair(""));
+            st.pair = Some(fresh_pair("(define orig-abs abs)"));
         }
         let p = st.pair.as_mut().unwrap();
         p.used += 1;
